@@ -46,6 +46,14 @@ CHECKS = {
          "Hijacked routes are requested in ?arg= and /{arg} style with valid and invalid paths and their options under POST/GET/PUT; the same paths under other methods and arbitrary other paths/queries/bodies under every method. Hijacked+valid must perform exactly the corresponding recorded cluster operations with the requested path/options and never reach the daemon under a hijacked method; an error answer with all RPCs succeeding must leave zero mutating RPCs; everything else must arrive at the daemon with identical method, path, raw query and body and the daemon's unique status/body must come back.",
          "Multi-segment /{arg} forms and unclean paths are not generated. The proxy's own OPTIONS/header-extraction requests to the daemon are ignored. The fake daemon stands for go-ipfs (fidelity of its error conventions is an assumption).",
          "DESIGN.md §4 C12"),
+ "C05": ("exploration", "runtime schedule-exploring monitor: real stateless tracker + operation table over a gated model IPFS daemon; completion order of in-flight calls chosen relative to later instructions; quiescence oracle, then heal + recover + exact oracle",
+         "Instruction sequences (track local/everywhere/remote/meta in recursive or direct mode, untrack, recover, recoverAll) run against the real tracker with queue sizes down to 1 and 1-3 workers while a gate completes, fails or holds each IPFS pin/unpin call until a chosen later instruction. At quiescence each CID's daemon state must match the last instruction or its status be an error status; ErrFullQueue must come with an error status; after healing the daemon and recover rounds every CID must match exactly, and the re-issued pins must carry the mode recorded in the pinset.",
+         "Daemon model: atomic calls, a cancelled uncommitted call has no effect. Not demanded: turning a recursively held CID into a direct pin (go-ipfs refuses). Recover rounds are repeated while they are cut short by ErrFullQueue, and up to 4 further rounds are granted before a mismatch is reported. No quiescence within 30 s = inconclusive.",
+         "DESIGN.md §4 C05"),
+ "C16": ("fault_enumeration", "runtime fault-injection monitor: real ipfshttp.Connector against a scripted fake IPFS HTTP daemon; one fault per conversation step; daemon pin table as ground truth",
+         "Each case is one Pin/Unpin/PinLsCid conversation with a prior daemon pin state, an optional update source (recursive/direct/absent), origins, and one fault (IPFS error body, non-JSON 500, reset before/inside the body, stall, progress-then-stall, progress-then-late-trailer-error, slow steady progress, already/not pinned errors) on one step. Success must imply the table holds the CID in the asked mode; healthy conversations must succeed; already-pinned must send no pin/add or pin/update; stalls must end in an error within 30 x pin_timeout while steady progress is not aborted; pin/update must carry unpin=false, be sent only for a recursively pinned source, and leave it pinned.",
+         "The fake daemon's fidelity to go-ipfs conventions is an assumption (no go-ipfs in the sandbox). Wall clock is intrinsic to the stall clauses; bounds are 30x the configured value and cases run 8-wide.",
+         "DESIGN.md §4 C16"),
 }
 
 ALL = ["C%02d" % i for i in range(1, 19)]
